@@ -43,14 +43,18 @@ func main() {
 			fsmodel.Materialize(tree(2+i%4, 5), dst)
 		}
 		notes := &xfer.Notes{}
-		opt := fsutil.ReceiveOpt{NotifyHashed: notes.Handle, ContentHasher: xfer.Hasher, ProgressCb: func(int, bool) {}}
+		// callbacks that keep plain, unsynchronised state, as callers' progress writers do: calling one of them
+		// from two goroutines at once is a data race the library causes
+		var rprog, sprog int
+		opt := fsutil.ReceiveOpt{NotifyHashed: notes.Handle, ContentHasher: xfer.Hasher, ProgressCb: func(n int, _ bool) { rprog = n }}
 		var s fsutil.FS = memfs.New(src)
 		if i%3 == 2 {
 			sd := scratch.Dir("racesrc")
 			fsmodel.Materialize(src, sd)
 			s, _ = fsutil.NewFS(sd)
 		}
-		res := xfer.Run(s, dst, opt, func(int, bool) {})
+		res := xfer.Run(s, dst, opt, func(n int, _ bool) { sprog = n })
+		_, _ = rprog, sprog
 		if !res.OK() {
 			fmt.Printf("transfer failed: %v %v\n", res.SendErr, res.RecvErr)
 			os.Exit(3)
